@@ -71,7 +71,15 @@ def run(tier):
         if isinstance(it, Opq) and it.kind == "to_lower":
             c = it.data[0]
             return _with_post(m, st, args[1], [Sym(("lower-all", c.name[1], c.name[2]), "char")], term, lambda mm, ss, v: ip.UNIT)
-        raise AnalysisError("for_each over %r" % (it,))
+        return None
+
+    def extend(w, m, st, callee, args, term):
+        # res.extend(c.to_lowercase()): appends the whole lowercase mapping of c
+        it = deref_all(m, st, args[1])
+        if isinstance(it, Opq) and it.kind == "to_lower":
+            c = it.data[0]
+            return w.buf_push(m, st, args[0], Sym(("lower-all", c.name[1], c.name[2]), "char"))
+        return None
 
     def once(w, m, st, callee, args, term):
         return Opq("once", (args[0],))
@@ -104,7 +112,7 @@ def run(tier):
         CH + "is_ascii_alphabetic": lambda cls, c: ip.boolean(classes[cls][5] and (classes[cls][0] or classes[cls][1])),
         CH + "to_ascii_lowercase": lambda cls, c: Sym(("lower-all", c.name[1], cls), "char") if classes[cls][5] else c,
     }
-    extra = {TO_LOWER: to_lower, FOR_EACH: for_each, ONCE: once, ITER_NE: iter_cmp(True), ITER_EQ: iter_cmp(False), "<core::char::ToLowercase as core::iter::traits::iterator::Iterator>::next": next_of_lower}
+    extra = {TO_LOWER: to_lower, FOR_EACH: for_each, "<alloc::string::String as core::iter::traits::collect::Extend<char>>::extend": extend, ONCE: once, ITER_NE: iter_cmp(True), ITER_EQ: iter_cmp(False), "<core::char::ToLowercase as core::iter::traits::iterator::Iterator>::next": next_of_lower}
     w = fcd.FcdWorld(prog, alpha, oracles, extra_oracles=extra)
     key = COMMON + "case_mapping_rule"
     info = fcd.analyse(prog, rep, "discipline", key, w)
